@@ -108,6 +108,9 @@ func (batch *Batch) close() (err error) {
 	}
 
 	if lock != nil {
+		if verifOn {
+			verifEvent("C.Body", conn, "batch", verifMuxErr(err))
+		}
 		lock.Unlock()
 	}
 
